@@ -10,6 +10,7 @@
 #include <sys/syscall.h>
 #include <sys/wait.h>
 #include <linux/futex.h>
+#include <sched.h>
 #include "hout.h"
 
 /* the explorer itself allocates from libc, not from the per-execution arena */
@@ -96,7 +97,8 @@ void mc_exists(int slot) { if (ctl) ctl->exists_mask |= 1u << (slot & 31); }
 void mc_observe(int slot, long v) { observes[slot & 7] = v; }
 void mc_step(void) { sched_point(OP_STEP, NULL, 0); }
 int mc_self(void) { return my_tid; }
-void mc_mark(void) { T[my_tid].blocked_count = 0; }
+void mc_mark(void) { T[my_tid].blocked_count = 0; T[my_tid].long_waits = 0; }
+int mc_long_waits(void) { return (int)T[my_tid].long_waits; }
 int mc_in_call_blocked(void) { return (int)T[my_tid].blocked_count; }
 long mc_barrier_count(void) { return T[my_tid].barriers; }
 unsigned long mc_virtual_ms(void) { return vclock_ms; }
@@ -237,7 +239,7 @@ void sched_point(int kind, void *obj, long arg)
     if (++ctl->steps > ctl->horizon)
         mc_violation("SCHED", "livelock/horizon", "execution exceeded the horizon of %d visible steps (livelock or unbounded loop)", ctl->horizon);
     t->pend_kind = kind; t->pend_obj = obj; t->pend_arg = arg; t->nops++;
-    if (!op_enabled(t)) t->blocked_count++;
+    if (!op_enabled(t)) { t->blocked_count++; if (kind == OP_RDLOCK || kind == OP_WRLOCK) t->long_waits++; }
     next = pick_next(self, 1);
     if (next < 0) mc_engine_error("no thread to run at a scheduling point");
     if (ctl->verbose) mc_log("T%d %s %p%s", next, op_name(T[next].pend_kind), T[next].pend_obj, next != self ? "  (switch)" : "");
@@ -272,12 +274,15 @@ void thread_finish_current(void)
 }
 
 /* ------------------------------------------------------------------ threads */
+static void *main_stack_lo, *main_stack_hi;
 static void set_stack_bounds(Thread *t)
 {
     pthread_attr_t a; void *lo; size_t sz;
+    if (t == &T[0] && main_stack_hi) { t->stack_lo = main_stack_lo; t->stack_hi = main_stack_hi; return; }
     if (pthread_getattr_np(pthread_self(), &a) == 0) {
         pthread_attr_getstack(&a, &lo, &sz);
         t->stack_lo = lo; t->stack_hi = (char *)lo + sz;
+        if (t == &T[0]) { main_stack_lo = t->stack_lo; main_stack_hi = t->stack_hi; }
         pthread_attr_destroy(&a);
     }
 }
@@ -379,7 +384,11 @@ static double now_s(void) { struct timespec ts; clock_gettime(CLOCK_MONOTONIC, &
 static void fp_add(uint32_t fp)
 {
     long h;
-    if (!fpset) { fpcap = 1 << 22; fpset = calloc(fpcap, sizeof *fpset); }
+    if (!fpset) {      /* explorer-only data: kept out of the forked executions (MADV_DONTFORK), otherwise every fork pays for its page tables */
+        fpcap = 1 << 22; fpset = mmap(NULL, fpcap * sizeof *fpset, PROT_READ | PROT_WRITE, MAP_PRIVATE | MAP_ANONYMOUS, -1, 0);
+        if (fpset == MAP_FAILED) { perror("fpset"); exit(2); }
+        madvise(fpset, fpcap * sizeof *fpset, MADV_DONTFORK);
+    }
     if (fpcount * 2 > fpcap) return;
     if (fp == 0) fp = 1;
     h = fp & (fpcap - 1);
@@ -547,7 +556,15 @@ int mc_main(int argc, char **argv, const McHarness *hs, int nh)
     signal(SIGPIPE, SIG_IGN);
     mem_init(); mon_init();
     T[0].used = 1; T[0].started = 1; T[0].vc[0] = 1; nthreads = 1; my_tid = 0;
+    set_stack_bounds(&T[0]);
     mcrt_zygote_init();          /* p_libsys_init() under the model, single threaded, before any fork */
+    {   /* all threads of one execution on one CPU: baton hand-offs become same-core context switches (much cheaper than cross-core wake-ups) */
+        cpu_set_t set; int ncpu = (int)sysconf(_SC_NPROCESSORS_ONLN), cpu;
+        const char *e = getenv("VERIF_CPU");
+        cpu = e ? atoi(e) : (int)(getpid() % (ncpu > 0 ? ncpu : 1));
+        CPU_ZERO(&set); CPU_SET(cpu, &set);
+        sched_setaffinity(0, sizeof set, &set);
+    }
     t_start = now_s();
     if (replay) {
         int n = parse_choices(replay, pre), rc;
